@@ -284,6 +284,22 @@ impl FixedBitSet {
 }
 
 // ---------- items copied from the real crates ----------
+//@const file=crates/oxidd-rules-tdd/src/apply_rec.rs path=impl:TVLFunction~for~TDDFunction<F>/fn:eval_edge/fn:inner name=ELEMENTS_PER_BLOCK rename=EVAL_ELEMENTS_PER_BLOCK vis=pub
+//@item file=crates/oxidd-rules-tdd/src/lib.rs path=impl:From<TDDTerminal>~for~Option<bool> props=C11
+//@end
+impl vstd::std_specs::convert::FromSpecImpl<TDDTerminal> for Option<bool> {
+    open spec fn obeys_from_spec() -> bool { true }
+    open spec fn from_spec(v: TDDTerminal) -> Option<bool> { match v { TDDTerminal::False => Some(false), TDDTerminal::Unknown => None, TDDTerminal::True => Some(true) } }
+}
+/// the 2-bit choice of level `l` in the packed vector built by `eval_edge` (0 = true child, 1 = unknown child, 2 = false child)
+pub open spec fn choice_at(choices: Seq<u32>, l: u32) -> u32 {
+    (choices[(l / EVAL_ELEMENTS_PER_BLOCK) as int] >> (2 * (l % EVAL_ELEMENTS_PER_BLOCK))) & 0b11
+}
+pub open spec fn tv_of_choice(c: u32) -> int { if c == 0 { 2 } else if c == 1 { 1 } else { 0 } }
+pub open spec fn opt_of_tv(v: int) -> Option<bool> { if v == 2 { Some(true) } else if v == 0 { Some(false) } else { None } }
+pub broadcast proof fn lemma_and3(x: u32) ensures #[trigger] (x & 0b11) <= 3 { assert((x & 0b11) <= 3) by (bit_vector); }
+pub broadcast group bit_lemmas { lemma_and3 }
+
 //@item file=crates/oxidd-rules-tdd/src/lib.rs path=enum:TDDTerminal attrs="#[derive(Clone, Copy, PartialEq, Eq, Structural)]" vis=pub
 //@end
 //@item file=crates/oxidd-rules-tdd/src/lib.rs path=enum:TDDOp attrs="#[derive(Clone, Copy, PartialEq, Eq, Structural)] #[repr(u8)]" vis=pub
@@ -379,7 +395,7 @@ pub fn rules_reduce<E: Edge, N: InnerNode<E>, M: Manager<Edge = E, InnerNode = N
 
 pub mod apply_rec {
 use super::*;
-broadcast use leaf_lemmas;
+broadcast use {leaf_lemmas, bit_lemmas};
 //@fn file=crates/oxidd-rules-tdd/src/apply_rec.rs path=fn:apply_not props=C11,C06 vis=pub
 //@spec
     requires edge_ok::<M::Edge>(), ok(f.view(), manager.num_levels_spec()),
@@ -505,6 +521,15 @@ fn t_edge<M>(manager: &M) -> (res: M::Edge)
 where M: Manager<Terminal = TDDTerminal> + HasApplyCache<M, TDDOp>, M::InnerNode: HasLevel,
 //@spec
     ensures res.view() == Tree::Leaf(2),
+//@end
+//@fn file=crates/oxidd-rules-tdd/src/apply_rec.rs path=impl:TVLFunction~for~TDDFunction<F>/fn:eval_edge/fn:inner rename=eval_edge__inner hoist=ELEMENTS_PER_BLOCK>EVAL_ELEMENTS_PER_BLOCK ret=r props=C11
+//@spec
+    requires ok(edge.view(), manager.num_levels_spec()), EVAL_ELEMENTS_PER_BLOCK > 0,
+        forall|l: u32| (l as int) < manager.num_levels_spec() ==> ((#[trigger] (l / EVAL_ELEMENTS_PER_BLOCK)) as int) < choices@.len(),
+        // the packed vector holds a legal child number for every level
+        forall|l: u32| (l as int) < manager.num_levels_spec() ==> #[trigger] choice_at(choices@, l) != 3,
+    ensures r == opt_of_tv(sem3(edge.view(), |l: int| tv_of_choice(choice_at(choices@, l as u32)))),
+    decreases edge.view(),
 //@end
 } // mod apply_rec
 } // mod rules
